@@ -73,3 +73,37 @@ Print Assumptions C04_div.
 Print Assumptions C04_leq_cst.
 Print Assumptions C04_lookup2.
 Print Assumptions C04_spec_const_agnostic.
+
+(* ---------------------------------------------------------------------------------------------
+   The R1CS builder itself (Frontend/BuilderR1CS.v: Gallina transcription of frontend/cs/r1cs,
+   tied to the code instruction by instruction by BuilderCases.v): for every program over the
+   modelled core of the API, every compression threshold and every choice of exposed variables,
+   an assignment satisfying the emitted system follows the documented meaning of every call,
+   satisfies every assertion and exposes the documented values. *)
+From GnarkV Require Import CS.Solver Frontend.BuilderR1CS Frontend.BuilderR1CSProps.
+
+Theorem C04_r1cs_builder_sound :
+  forall (F : Type) (zero one : F) (add mul sub : F -> F -> F) (opp : F -> F) (div : F -> F -> F) (inv : F -> F),
+  field_theory zero one add mul sub opp div inv (@eq F) ->
+  forall (eq_dec : forall x y : F, {x = y} + {x <> y}) (cst : Z -> F),
+  cst 0%Z = zero -> cst 1%Z = one -> cst 2%Z = add one one ->
+  forall (nbpub nbsec thr : nat) (prog : list op) (outs : list nat),
+  let st := b_compile F zero one add mul sub opp inv eq_dec cst nbpub nbsec thr prog outs in
+  b_err F st = false ->
+  forall w : nat -> F, BuilderR1CSProps.good F zero one add mul w st ->
+  exists fin : list F,
+    BuilderR1CSProps.trace_sem F zero one add mul sub opp div inv eq_dec cst prog
+      (map (fun i => w (input_wire nbpub (length outs) i)) (seq 0 (nbpub + nbsec))) fin /\
+    forall j o, nth_error outs j = Some o -> nth o fin zero = w (S (nbpub + j)).
+Proof. exact compile_sound. Qed.
+
+(* the merge of builder.add (k-way merge, cancellation, empty result) preserves the value *)
+Theorem C04_r1cs_add_value :
+  forall (F : Type) (zero one : F) (add mul sub : F -> F -> F) (opp : F -> F) (div : F -> F -> F) (inv : F -> F),
+  field_theory zero one add mul sub opp div inv (@eq F) ->
+  forall (eq_dec : forall x y : F, {x = y} + {x <> y}) (w : nat -> F) (vars : list (lexp F)) (sb : bool),
+  BuilderR1CSProps.ev F zero add mul w (merge_les F zero add opp eq_dec vars sb) = BuilderR1CSProps.sum_ev F zero add mul sub w sb vars.
+Proof. exact ev_merge. Qed.
+
+Print Assumptions C04_r1cs_builder_sound.
+Print Assumptions C04_r1cs_add_value.
